@@ -619,9 +619,8 @@ func (ex *Exec) applyContractNamed(fr *Frame, st *State, c *Contract, names []st
 		ex.havocArgs(st, args)
 	}
 	for _, cl := range c.Clauses {
-		if !tagActive(cl.Tags, ex.prop) {
-			continue
-		}
+		// a frame clause is honoured under every property, whatever its tag: forgetting more is always sound, and a
+		// clause of another property that relates the ghost to its old value must never meet an unchanged ghost
 		if cl.Kind == "modifies" || cl.Kind == "havoc" {
 			for _, n := range cl.Names {
 				if g, ok := ex.lib.Ghosts[n]; ok {
